@@ -34,6 +34,7 @@ import (
 	"math/rand"
 	"net/http"
 	"net/http/httptest"
+	"net/url"
 	"os"
 	"path/filepath"
 	"strconv"
@@ -199,7 +200,7 @@ type c04SigReq struct {
 
 // c04SplitURI splits the simple URIs the generator produces ("/p?q" or "http://host/p?q").
 func c04SplitURI(u string) (path, query string, ok bool) {
-	if strings.ContainsAny(u, "%# []") {
+	if strings.ContainsAny(u, "# []") {
 		return "", "", false
 	}
 	if i := strings.Index(u, "://"); i >= 0 {
@@ -214,10 +215,34 @@ func c04SplitURI(u string) (path, query string, ok bool) {
 		return "", "", false
 	}
 	if i := strings.Index(u, "?"); i >= 0 {
-		return u[:i], u[i+1:], true
+		u, query = u[:i], u[i+1:]
 	}
-	return u, "", true
+	// the signed path is the decoded one (what net/http calls URL.Path)
+	dec, err := url.PathUnescape(u)
+	if err != nil {
+		return "", "", false
+	}
+	return dec, query, true
 }
+
+// c04EscapePath percent-encodes every byte outside the unreserved set.
+func c04EscapePath(seg string, lower bool) string {
+	var sb strings.Builder
+	for i := 0; i < len(seg); i++ {
+		c := seg[i]
+		if strings.IndexByte(c04Alnum+"-_.~", c) >= 0 {
+			sb.WriteByte(c)
+		} else if lower {
+			fmt.Fprintf(&sb, "%%%02x", c)
+		} else {
+			fmt.Fprintf(&sb, "%%%02X", c)
+		}
+	}
+	return sb.String()
+}
+
+var c04OddSegments = []string{"annual report.pdf", "张三", "c++", "a|b", "50%", "q?x=1", "semi;colon", "a&b=c", "ü-ñ", "sp ace+plus",
+	"[brackets]", "hash#tag", "quo\"te", "%41", "a%2Fb-literally", "back\\slash", "{curly}", "^caret`"}
 
 // c04BodyDecryptable: is the body what a type=1 request must carry (base64 of whole AES blocks
 // under a 16/24/32-byte key)? Anything else is outside the statement (CryptoHandler's business).
@@ -281,7 +306,12 @@ func c04VerifySig(q c04SigReq, ks *c04KeySet, now, tol int64) (int, string) {
 	if d > tol {
 		return c04Reject, "timestamp-outside-tolerance"
 	}
-	path, query := q.Path, q.Query
+	// q.Path is the path as sent (percent-encoded where needed); the scheme signs the decoded path
+	path, err := url.PathUnescape(q.Path)
+	if err != nil {
+		return c04Unasserted, "request-path-not-decodable"
+	}
+	query := q.Query
 	if q.ReqURI != "" {
 		// a proxy that rewrites the URL forwards the original one in X-Request-Uri; the
 		// signed path/query are then the ones of that header
@@ -307,14 +337,14 @@ func c04VerifySig(q c04SigReq, ks *c04KeySet, now, tol int64) (int, string) {
 var c04SigValid = []c04Weighted{{"valid", 10}, {"valid-encrypted-body", 4}, {"valid-ts-near-past-edge", 4},
 	{"valid-ts-near-future-edge", 4}, {"valid-multiblock-secret", 3}, {"valid-x-request-uri", 3},
 	{"valid-secret-by-codec-encryptor", 3},
-	{"valid-ts-unusual-spelling", 3}}
+	{"valid-ts-unusual-spelling", 3}, {"valid-escaped-path", 5}}
 
 var c04SigInvalid = []c04Weighted{{"tamper-method", 5}, {"tamper-path", 5}, {"tamper-query", 5}, {"tamper-body", 6},
 	{"tamper-timestamp", 5}, {"tamper-signature", 5}, {"signature-of-other-request", 3}, {"tamper-key", 4},
 	{"fingerprint-unknown", 3}, {"fingerprint-of-other-key", 3}, {"secret-from-unknown-keypair", 2}, {"secret-garbage", 2},
 	{"secret-not-base64", 2}, {"header-missing", 3}, {"header-field-missing", 3}, {"timestamp-not-numeric", 2},
 	{"ts-too-old", 6}, {"ts-too-new", 6}, {"x-request-uri-differs-from-signed", 3}, {"signed-url-but-x-request-uri-says-other", 2},
-	{"encrypted-signed-over-plaintext", 3}, {"secret-key-not-base64", 2}, {"tamper-timestamp-spelling", 4},
+	{"encrypted-signed-over-plaintext", 3}, {"secret-key-not-base64", 2}, {"tamper-timestamp-spelling", 4}, {"escaped-path-signed-over-wire-form", 3},
 	// not asserted (observed only): outside the statement
 	{"secret-type-not-numeric", 1}, {"encrypted-body-not-decodable", 2}, {"x-request-uri-unparsable", 1}}
 
@@ -403,6 +433,16 @@ func c04GenSig(r *rand.Rand, class string, ks *c04KeySet, prefix string, now, to
 		pub:    &k.priv.PublicKey,
 	}
 	s.extraAttr = r.Intn(2) == 0
+	wire := ""
+	if class == "valid-escaped-path" || class == "escaped-path-signed-over-wire-form" || (class == "valid-x-request-uri" && r.Intn(3) == 0) {
+		// a path segment that has to be percent-encoded on the wire; the client signs the decoded path
+		seg := c04OddSegments[r.Intn(len(c04OddSegments))]
+		if r.Intn(3) == 0 {
+			seg = c04RandStr(r, 1, 3, c04Alnum) + " " + c04RandStr(r, 1, 6, c04Alnum+" +|%?;&=#[]éλ中") + c04RandStr(r, 1, 3, c04Alnum)
+		}
+		s.path = prefix + "/" + seg
+		wire = prefix + "/" + c04EscapePath(seg, r.Intn(4) == 0)
+	}
 	if strings.HasSuffix(s.path, "/.") || strings.HasSuffix(s.path, "/..") {
 		s.path += "x"
 	}
@@ -464,6 +504,9 @@ func c04GenSig(r *rand.Rand, class string, ks *c04KeySet, prefix string, now, to
 	}
 	sig := base64.StdEncoding.EncodeToString(c04SigMac(s.key, c04SigMessage(s.ts, s.method, s.path, s.query, s.sent)))
 	q := c04SigReq{Class: class, Method: s.method, Path: s.path, Query: s.query, Body: s.sent, HasCS: true, Plain: s.plain}
+	if wire != "" {
+		q.Path = wire
+	}
 	q.CS = c04Header(s.fp, s.secret(r, s.key, s.ts), sig)
 	q.Want = c04Admit
 	otherURI := func() (string, string) {
@@ -483,8 +526,10 @@ func c04GenSig(r *rand.Rand, class string, ks *c04KeySet, prefix string, now, to
 	case "valid", "valid-encrypted-body", "valid-ts-near-past-edge", "valid-ts-near-future-edge", "valid-multiblock-secret",
 		"valid-secret-by-codec-encryptor", "valid-ts-unusual-spelling":
 		return q
+	case "valid-escaped-path":
+		return q
 	case "valid-x-request-uri": // signed for the public URL; the request arrives rewritten
-		q.ReqURI = uri(s.path, s.query)
+		q.ReqURI = uri(q.Path, s.query)
 		q.Path, q.Query = otherURI()
 		return q
 	case "secret-type-not-numeric":
@@ -590,6 +635,9 @@ func c04GenSig(r *rand.Rand, class string, ks *c04KeySet, prefix string, now, to
 			ts2 = ts - 1 - int64(r.Intn(5))
 		}
 		q.CS = c04Header(s.fp, s.secret(r, s.key, strconv.FormatInt(ts2, 10)), sig)
+	case "escaped-path-signed-over-wire-form": // HMAC over the percent-encoded spelling instead of the path
+		sg := base64.StdEncoding.EncodeToString(c04SigMac(s.key, c04SigMessage(s.ts, s.method, wire, s.query, s.sent)))
+		q.CS = c04Header(s.fp, s.secret(r, s.key, s.ts), sg)
 	case "tamper-timestamp-spelling": // same instant, other spelling than the one that was signed
 		q.CS = c04Header(s.fp, s.secret(r, s.key, respell(s.ts)), sig)
 	case "tamper-signature":
